@@ -200,9 +200,28 @@ def dump(src, filt, std="gnu++17", defines=(), extra=()):
             if n.get("kind") == "DependentScopeDeclRefExpr" and "name" not in n:
                 n["name"] = _re.sub(r"\s+", "", d.text(n))
             if n.get("kind") == "UnresolvedMemberExpr" and "member" not in n:
-                txt = d.text(n)
-                m = _re.search(r"([A-Za-z_]\w*)\s*(<[^()]*>)?\s*$", txt.split("(")[0])
-                n["member"] = m.group(1) if m else "?"
+                name = None
+                # inside a macro body the expansion range is the macro invocation: the member name is the token at the spelling location
+                for end in ("end", "begin"):
+                    loc = ((n.get("range") or {}).get(end) or {})
+                    sp = loc.get("spellingLoc")
+                    if sp and sp.get("offset") is not None and sp.get("tokLen") and sp.get("file"):
+                        try:
+                            raw = d._files.get(sp["file"])
+                            if raw is None:
+                                raw = open(sp["file"], "rb").read()
+                                d._files[sp["file"]] = raw
+                            tok = raw[sp["offset"]:sp["offset"] + sp["tokLen"]].decode("utf-8", "replace")
+                        except OSError:
+                            tok = ""
+                        if _re.fullmatch(r"[A-Za-z_]\w*", tok) and tok != "this":
+                            name = tok
+                            break
+                if name is None:
+                    txt = d.text(n)
+                    m = _re.search(r"([A-Za-z_]\w*)\s*(<[^()]*>)?\s*$", txt.split("(")[0])
+                    name = m.group(1) if m else "?"
+                n["member"] = name
         return d
     finally:
         if tmp:
